@@ -122,7 +122,7 @@ Mangle(kind, index, name, idlen, idhash, H) == MangleH(kind, index, name, idlen,
 CONSTANTS Chars,        \* model alphabet (one-character strings)
           MaxLen,       \* longest name
           IdLens,       \* identifier limits explored
-          HMod,         \* tiny hash: sum of character weights modulo HMod
+          HMod,         \* tiny hash: a polynomial of the character codes modulo HMod (collisions are plentiful)
           Indices,      \* indices of indexed entities
           MaxIdxLen,    \* longest name given to indexed entities (their names follow kind, index and '_')
           MinIdLen      \* the least limit (other than 0) for which indexed entities are claimed distinct
@@ -167,7 +167,7 @@ GlobalsExact(il, ih) ==
       ims == {p[1] : p \in pairs}
       keys == {p[2] : p \in pairs}
   IN Cardinality(pairs) = Cardinality(ims) /\ Cardinality(pairs) = Cardinality(keys)
-(* the number of (unordered) colliding pairs of distinct global entities *)
+(* how many global entities lose their own identifier: entities minus distinct identifiers *)
 GlobalCollisions(il, ih) ==
   Cardinality(GlobalSet) - Cardinality({GM(e, il, ih) : e \in GlobalSet})
 
